@@ -146,6 +146,8 @@ def engine_fault(exc):
     return True
   if isinstance(exc, AssertionError):
     return False
+  if isinstance(exc, z3.Z3Exception):
+    return True
   tb = traceback.extract_tb(exc.__traceback__)
   return bool(tb) and '/verif/vf/' in tb[-1].filename
 
